@@ -27,6 +27,7 @@
 #include <complex.h>
 #include <ctype.h>
 #include <errno.h>
+#include <limits.h>
 #include <math.h>
 #include <stdarg.h>
 #include <stdio.h>
@@ -1151,6 +1152,19 @@ static int parse_set(vnacal_load_state_t *vlsp, yaml_node_t *node)
 	_vnacal_error(vcp, VNAERR_SYNTAX,
 		"%s (line %ld) error: missing required field \"type\"",
 		vcp->vc_filename, node->start_mark.line + 1);
+	return -1;
+    }
+    if (VNACAL_IS_T(type) ? rows > columns : rows < columns) {
+	_vnacal_error(vcp, VNAERR_SYNTAX,
+		"%s (line %ld) error: %d x %d dimensions are invalid for "
+		"type %s", vcp->vc_filename, node->start_mark.line + 1,
+		rows, columns, vnacal_type_to_name(type));
+	return -1;
+    }
+    if ((long long)MAX(rows, columns) * MAX(rows, columns) > INT_MAX / 4) {
+	_vnacal_error(vcp, VNAERR_SYNTAX,
+		"%s (line %ld) error: dimensions %d x %d are too large",
+		vcp->vc_filename, node->start_mark.line + 1, rows, columns);
 	return -1;
     }
     _vnacal_layout(&vl, type, rows, columns);
